@@ -122,7 +122,7 @@ def wfB (m : Macro) : Bool :=
     | _ => true)
 
 
-/-! ## the class with `##` (experimental until proved: `tameRunP`) -/
+/-! ## the class with `##`: `tameRunP` decides `Lemmas.MacroTameP.TameP` -/
 
 def dropWs (l : List PTok) : List PTok := l.dropWhile (·.tok.isWhitespace)
 
@@ -160,10 +160,10 @@ def tameRunP : Nat → List Entry → List PTok → Option (List PTok)
   | f + 1, env, t :: rest =>
     match (if t.tok.isWhitespace then none else splitPaste rest) with
     | some (t2, rest2) =>
-      -- `t ## t2`: neither operand is expanded, the merged token is kept
+      -- `t ## t2`: neither operand is expanded, the merged token names no enabled macro
       if keptB env t rest then
         match pasteTokens t t2 with
-        | .ok m => if keptB env m rest2 then tameRunP f env (m :: rest2) else none
+        | .ok m => if onlyDisabledB env [m] then tameRunP f env (m :: rest2) else none
         | .error _ => none
       else none
     | none =>
